@@ -725,12 +725,13 @@ func ruleLateResponsesIgnored(c *Ctx, rule string) {
 		c.Anchor(rule, "not-found edge")
 		n := 0
 		bad := ""
-		for _, r := range returnsOf(handle) {
+		for _, dr := range w.returnsThrough(handle, 0, 3) {
+			r := dr.ret
 			for _, f := range w.factsAt(r) {
 				if f.Op == "true" && !f.Truth {
 					if fc, fi := callOf(f.X); fc != nil && fc.Call.StaticCallee() == find && fi == 1 {
 						n++
-						if !isNilConst(w.resolveLoad(r.Results[0])) {
+						if !isNilConst(dr.val) {
 							bad = "a response without a pending transaction makes handleSTUNMessage return an error at " + w.instrPos(r) + ": Client.Listen stops reading on the first duplicate or late response"
 						}
 					}
